@@ -39,6 +39,10 @@ func main() {
 
 	opt := newDefaultOptions()
 	opt.WorkDir = *workDir
+	// Redis read-modify-write commands (INCR family, SET NX/XX, DEL) run as
+	// optimistic transactions; without conflict detection concurrent clients
+	// silently overwrite each other's updates.
+	opt.DetectConflicts = true
 	if opt.MaxBatchCount <= 0 {
 		opt.MaxBatchCount = int64(opt.WriteBatchMaxCount)
 		if opt.MaxBatchCount <= 0 {
